@@ -1,5 +1,4 @@
 /-- translated from the source text of `fieldcompare/predicates/_predicates.py: DefaultEquality.__call__` -/
--- v0 = self, v1 = first, v2 = second
 def c09DefaultEqualityCallSrc : Fc.PyLite.Fn := {
   name := "DefaultEquality.__call__"
   params := ["v0", "v1", "v2"]
